@@ -89,6 +89,19 @@ Theorem C13_next_prev_rev_member : forall md r e d t i, wf_rev md r e d -> valid
 Proof. exact next_prev_rev_member. Qed.
 Print Assumptions C13_next_prev_rev_member.
 
+(* get_first_after on a reverse series: the property text ("the earliest
+   member strictly later than p") is NOT met.  The code reads the absent start
+   point; the model returns its "raised" value for every fuel although a later
+   member (here the end itself) exists.  On the real package:
+   R/PT6H/2002-05-05T01:00Z . get_first_after(2002-05-04T13:00Z) raises TypeError,
+   and R/P1M/... returns None for the same probe.  Reported as a finding. *)
+Theorem C13_first_after_rev_refuted :
+  exists md r e d t, wf_rev md r e d /\ valid_tp md t = true /\
+    (instant md t < instant md e)%Q /\ get_is_valid md r e 5 = Some true /\
+    forall fuel, get_first_after md r t fuel = None.
+Proof. exact first_after_rev_refuted. Qed.
+Print Assumptions C13_first_after_rev_refuted.
+
 (* ====================================================================== *)
 (* (B) any interval that steps, against iteration                          *)
 (* ====================================================================== *)
@@ -118,13 +131,13 @@ Definition min_step (d : dur) : Q :=
   if is_exact d then dur_len d else (dur_len d + 86400)%Q.
 
 (* a recurrence with an anchor a (its start; its end when it has no start), an
-   interval that steps and valid ends.  The stored end of a bounded series is
+   interval that steps and valid ends in order.  The stored end of a bounded series is
    NOT assumed to be where n-1 steps lead (finding F4). *)
 Definition wf_any (md : mode) (r : recur) (a : tp) (d : dur) : Prop :=
   r_dur r = Some d /\ step_dur d /\ valid_tp md a = true /\
   match r_start r, r_end r, r_reps r with
   | Some s, None, None => a = s
-  | Some s, Some e, Some n => a = s /\ 2 <= n /\ valid_tp md e = true
+  | Some s, Some e, Some n => a = s /\ 2 <= n /\ valid_tp md e = true /\ (instant md s <= instant md e)%Q
   | None, Some e, None => a = e
   | _, _, _ => False
   end.
@@ -225,6 +238,33 @@ Theorem C13_next_iter_bounded : forall md r a d n e l, wf_any md r a d ->
 Proof. exact next_iter_bounded. Qed.
 Print Assumptions C13_next_iter_bounded.
 
+(* get_first_after on a series with a start and a month/year interval (the
+   code scans with get_next): the earliest iterated point strictly later than
+   the probe -- the first point when the probe precedes the series -- and None
+   exactly when no iterated point is later.  (Exact intervals take the
+   closed-form branch: Props/C13.v, C13_first_after.) *)
+Definition later_min_iter (md : mode) (r : recur) (t : tp) (res : option tp) : Prop :=
+  match res with
+  | Some q => (exists k i, nth_error (iter_take md r k) i = Some q) /\ (instant md t < instant md q)%Q /\
+              forall k i p, nth_error (iter_take md r k) i = Some p -> (instant md t < instant md p)%Q ->
+                            (instant md q <= instant md p)%Q
+  | None => forall k i p, nth_error (iter_take md r k) i = Some p -> (instant md p <= instant md t)%Q
+  end.
+
+Theorem C13_first_after_iter : forall md r a d t fuel res, wf_any md r a d -> r_start r = Some a ->
+  is_exact d = false -> valid_tp md t = true ->
+  get_first_after md r t fuel = Some res ->
+  later_min_iter md r t res /\ ((instant md t < instant md a)%Q -> res = Some a).
+Proof. exact first_after_any. Qed.
+Print Assumptions C13_first_after_iter.
+
+Theorem C13_first_after_iter_total : forall md r a d t fuel, wf_any md r a d -> r_start r = Some a ->
+  is_exact d = false -> valid_tp md t = true -> (0 < fuel)%nat ->
+  (inject_Z (Z.of_nat fuel) * min_step d > instant md t - instant md a + min_step d)%Q ->
+  exists res, get_first_after md r t fuel = Some res.
+Proof. exact first_after_total_any. Qed.
+Print Assumptions C13_first_after_iter_total.
+
 (* ====================================================================== *)
 (* the hypotheses are satisfiable, with non-trivial values                 *)
 (* ====================================================================== *)
@@ -273,9 +313,10 @@ Example C13Ext_ex_nominal :
   match rec_make G None (Some s) (Some d) None, rec_make G (Some 3) (Some s') (Some (DU 0 1 1 0 0 0)) None,
         rec_make G None None (Some d) (Some e) with
   | Ok r1, Ok r2, Ok r3 =>
-    (iter_take G r1 4, get_is_valid G r1 at28 10, get_is_valid G r1 e 10) =
+    (iter_take G r1 4, get_is_valid G r1 at28 10, get_is_valid G r1 e 10, get_first_after G r1 at28 10) =
       ([s; feb28; mkTp (Cal 2001 3 28) (HMS 0 0 0) (mkZone 0 0);
-        mkTp (Cal 2001 4 28) (HMS 0 0 0) (mkZone 0 0)], Some true, Some false) /\
+        mkTp (Cal 2001 4 28) (HMS 0 0 0) (mkZone 0 0)], Some true, Some false,
+       Some (Some (mkTp (Cal 2001 4 28) (HMS 0 0 0) (mkZone 0 0)))) /\
     (r_end r2, iter_take G r2 5, get_is_valid G r2 at28 10, get_is_valid G r2 feb28 10,
      get_next G r2 (rec_getitem G r2 0), get_next G r2 (rec_getitem G r2 1), rec_getitem G r2 2) =
       (Some (mkTp (Cal 2001 3 28) (HMS 0 0 0) (mkZone 0 0)), [s'; feb28],
